@@ -248,6 +248,10 @@ class SymArray:
     def tolist(self):
         return self.data
 
+    @property
+    def dtype(self):
+        return _DType(self.t.name)
+
     def __getitem__(self, i):
         if isinstance(i, _BoolMask):
             keep = []
@@ -269,8 +273,34 @@ class SymArray:
     def astype(self, dtype, copy=True):
         if dtype is bool:
             return _BoolMask(self.data)
-        t = ctype(dtype.name if isinstance(dtype, _DType) else str(dtype))
+        t = ctype(dtype.name if isinstance(dtype, _DType) else (dtype.name if isinstance(dtype, rt.CType) else str(dtype)))
         return SymArray([coerce(t, x) for x in self.data], t)
+
+    # elementwise arithmetic with numpy's same-dtype (wrapping) semantics; the other operand must be a scalar
+    # of the same dtype (numpy scalar) or an array of the same dtype
+    def _elem(self, o, f):
+        if isinstance(o, SymArray):
+            if o.t is not self.t:
+                raise Escape("array arithmetic between different dtypes")
+            return SymArray([coerce(self.t, f(a, b)) for a, b in zip(self.data, o.data)], self.t)
+        if isinstance(o, CInt):
+            if o.t is not self.t:
+                raise Escape("array/scalar arithmetic between different dtypes")
+            return SymArray([coerce(self.t, f(a, o)) for a in self.data], self.t)
+        if isinstance(o, int) and self.t.lo <= o <= self.t.hi:
+            return SymArray([coerce(self.t, f(a, CInt.const(o, self.t))) for a in self.data], self.t)
+        raise Escape("unsupported array operand")
+
+    def __sub__(self, o):
+        return self._elem(o, lambda a, b: a - b)
+
+    def __add__(self, o):
+        return self._elem(o, lambda a, b: a + b)
+
+    def __iadd__(self, o):
+        r = self._elem(o, lambda a, b: a + b)
+        self.data[:] = r.data
+        return self
 
 
 class _BoolMask:
@@ -297,9 +327,7 @@ class _SymNP:
         dims = []
         for s in shape:
             if isinstance(s, CInt):
-                if not s.concrete:
-                    raise Escape("array allocation with a symbolic size")
-                s = s.e
+                s = rt.concretize(s, range(0, rt.UNWIND + 1))
             dims.append(int(s))
 
         def build(ds):
@@ -321,6 +349,25 @@ class _SymNP:
         if isinstance(x, View):
             return SymArray(x.data, x.t)
         return x
+
+    def diff(self, a, prepend=None):
+        xs = list(a.data)
+        if prepend is not None:
+            xs = [coerce(a.t, prepend)] + xs
+        return SymArray([coerce(a.t, xs[i + 1] - xs[i]) for i in range(len(xs) - 1)], a.t)
+
+    def cumsum(self, a, dtype=None):
+        t = a.t if dtype is None else ctype(dtype.name if isinstance(dtype, _DType) else (dtype.name if isinstance(dtype, rt.CType) else str(dtype)))
+        out, acc = [], None
+        for x in a.data:
+            x = coerce(t, x) if isinstance(x, CInt) else coerce(t, x)
+            acc = x if acc is None else coerce(t, acc + x)
+            out.append(acc)
+        return SymArray(out, t)
+
+    def iinfo(self, dtype):
+        t = ctype(dtype.name if isinstance(dtype, _DType) else (dtype.name if isinstance(dtype, rt.CType) else str(dtype)))
+        return type("iinfo", (), {"min": t.lo, "max": t.hi})()
 
     def ones(self, shape, dtype=None):
         return self._mk(shape, dtype, 1)
